@@ -97,8 +97,12 @@ class c14_load:
 
 
 def _mk_step(i, flavour):
+    """flavours: 'a' accepts RecA, 'ab' accepts RecA/RecB (both skip not-completed input, the define_app default);
+    'na' accepts RecA and 'ns' accepts anything (SerialisableType), both with skip_not_completed=False: their main
+    is handed NotCompleted values and treats them with the step's default rule on payload 0 (same as the Lean
+    codec `applyRule … (.nc n)`), keeping the not-completed value's source"""
     name = f"c14_step{i}{flavour}"
-    hint = "RecA" if flavour == "a" else "Union[RecA, RecB]"
+    hint = {"a": "RecA", "ab": "Union[RecA, RecB]", "na": "RecA", "ns": "SerialisableType"}[flavour]
     src = f"""
 class {name}:
     def __init__(self, plan=None, default=("ret", 2, 0)):
@@ -106,6 +110,8 @@ class {name}:
         self.default = list(default)
 
     def main(self, rec: {hint}) -> Union[RecA, RecB, SerialisableType]:
+        if isinstance(rec, NotCompleted):
+            return _apply(self, self.default, 0, rec.source, rec)
         return _apply(self, _plan_get(self.plan, rec.val, self.default), rec.val, rec.source, rec)
 """
     ns = {}
@@ -113,11 +119,13 @@ class {name}:
     cls = ns[name]
     cls.__module__ = __name__
     cls.__qualname__ = name
+    if flavour in ("na", "ns"):
+        return define_app(skip_not_completed=False)(cls)
     return define_app(cls)
 
 
 for _i in range(1, 5):
-    for _f in ("a", "ab"):
+    for _f in ("a", "ab", "na", "ns"):
         globals()[f"c14_step{_i}{_f}"] = _mk_step(_i, _f)
 
 
